@@ -32,8 +32,8 @@ LEVEL_TEXT = (
     "returns exactly one block equal to the flat aggregate whenever combine/aggregate are homomorphisms on "
     "concatenation; hence split_every_irrelevant. Instances proved equal to the NumPy specification for every "
     "blocking: sum, prod, any, all, mean as (total,n), min/max with dask's empty-chunk rule (min_eq_numpy, "
-    "max_eq_numpy), argmin/argmax returning the FIRST flat index of the extremum (argmin_eq_numpy, argmax_eq_numpy: "
-    "1-d / raveled order, non-empty blocks), top-k (topk_eq_sort_take: the k largest / -k smallest of the whole "
+    "max_eq_numpy), argmin/argmax returning the FIRST flat index of the extremum (argmin_eq_numpy_all, "
+    "argmax_eq_numpy_all: 1-d / raveled order, empty blocks included — the code after the arg_chunk fix), top-k (topk_eq_sort_take: the k largest / -k smallest of the whole "
     "array); multi-axis reductions: gridReduce_eq_fold / sum_nd_eq_numpy / prod_nd_eq_numpy — for a commutative monoid, "
     "every grid of blocks, every per-axis split_every and every depth with n_i ≤ k_i^depth the n-d partial_reduce tree "
     "returns one block with the fold of all data (product of per-axis partitions is a partition of the grid). K2: sequential cumreduction equals the global scan for every chunking "
@@ -398,12 +398,7 @@ def case_arg(ctx, inp):
         ctx.branch("numpy-raises")
         return
     if got[0] == "raised":
-        sig = None
-        red_empty = any(0 in chunks[i] for i in norm_axes(axis, a.ndim))
-        if red_empty and got[1].startswith("ValueError") and ("zero-size" in got[1] or "empty sequence" in got[1]):
-            sig = "arg:zero-length-chunk-on-reduced-axis:ValueError"
-            ctx.branch("known: arg zero-length chunk")
-        ctx.fail(f"{op}: dask raised but NumPy returns a value: {got[1]}", sig=sig, observed=got[1], expected=np.asarray(exp[1]).tolist())
+        ctx.fail(f"{op}: dask raised but NumPy returns a value: {got[1]}", observed=got[1], expected=np.asarray(exp[1]).tolist())
         return
     if not U.same_values(got[1], exp[1], True):
         ctx.fail(f"{op} differs from NumPy (first occurrence expected)", observed=np.asarray(got[1]).tolist(), expected=np.asarray(exp[1]).tolist())
@@ -437,6 +432,8 @@ def case_arg(ctx, inp):
         ctx.branch("ties")
     if axis is None and a.ndim > 1:
         ctx.branch("ravel n-d")
+    if any(0 in c for c in chunks):
+        ctx.branch("zero-length chunk")
 
 
 def case_cum(ctx, inp):
@@ -632,7 +629,7 @@ def gen_arg(ctx, n):
     rng = ctx.rng
     for _ in range(n):
         shape = U.rand_shape(rng, 3, 5)
-        chunks = U.rand_chunks(rng, shape, zero_p=0.04)
+        chunks = U.rand_chunks(rng, shape, zero_p=0.2)
         axis = rng.choice([None] + list(range(len(shape))))
         op = rng.choice(["argmin", "argmax", "argmin", "argmax", "nanargmin", "nanargmax"])
         kind = rng.choice(["int", "int", "float", "nan"]) if op.startswith("arg") else rng.choice(["nan", "float"])
@@ -722,9 +719,9 @@ def _exhaustive_small(ctx):
                              "axis": 0, "keepdims": False, "split_every": se}
             yield "cum", {"a": enc_arr(a), "chunks": [list(ch)], "op": rng.choice(["cumsum", "cumprod"]), "axis": 0,
                           "method": rng.choice(["sequential", "blelloch"])}
+            yield "arg", {"a": enc_arr(U.rand_int_array(rng, (n,), 0, 1)), "chunks": [list(ch)],
+                          "op": rng.choice(["argmin", "argmax"]), "axis": 0, "keepdims": False, "split_every": se}
             if 0 not in ch:
-                yield "arg", {"a": enc_arr(U.rand_int_array(rng, (n,), 0, 1)), "chunks": [list(ch)],
-                              "op": rng.choice(["argmin", "argmax"]), "axis": 0, "keepdims": False, "split_every": se}
                 yield "topk", {"a": enc_arr(a), "chunks": [list(ch)], "k": rng.choice([1, n, -n, max(ch)]), "axis": 0,
                                "split_every": se, "arg": rng.random() < 0.5}
             if ctx.thorough():
